@@ -349,7 +349,10 @@ def fit_scipy(
         ndf = s.x.shape[0]
         min_nll = s.fun / grad_scale
         success = s.success
-        hess_inv = fcn.vm.trans_error_matrix(s.hess_inv * grad_scale, s.x)
+        if hasattr(s, "hess_inv"):
+            hess_inv = fcn.vm.trans_error_matrix(
+                s.hess_inv * grad_scale, s.x
+            )
         fcn.vm.remove_bound()
 
         xn = fcn.vm.get_all_val()
